@@ -318,6 +318,84 @@ func checkC15(r *Result) {
 			}
 		}
 		r.check(off && ln, "ABI-TYPES", "EncodeAndHashValidatorSet dynamic-array head: offset word 32, length word len(validators)", P.Pos(fn.Pos()), fmt.Sprintf("offset constant 32: %v ; length word from len(): %v", off, ln))
+		// the bytes hashed are head ++ elements in this order: offset word, length word, then one packed element per
+		// validator in the order of the set
+		{
+			words := map[ssa.Value]string{} // 32-byte slice -> what PutUint64 wrote into its last 8 bytes
+			for _, cs := range P.CallSitesIn(fn) {
+				if strings.HasSuffix(cs.Callee, "bigEndian).PutUint64") {
+					args := cs.Instr.Common().Args
+					if sl, ok := args[len(args)-2].(*ssa.Slice); ok {
+						if lo, ok := sl.Low.(*ssa.Const); ok && lo.Int64() == 24 && sl.High == nil {
+							a := tm.Of(args[len(args)-1])
+							switch {
+							case a.Op == "const:32":
+								words[sl.X] = "offset"
+							case a.Op == "call:builtin:len" || (strings.HasPrefix(a.Op, "convert:") && len(a.Args) == 1 && a.Args[0].Op == "call:builtin:len"):
+								words[sl.X] = "length"
+							}
+						}
+					}
+				}
+			}
+			appendOf := func(v ssa.Value) (ssa.Value, ssa.Value, bool) {
+				c, ok := v.(*ssa.Call)
+				if !ok {
+					return nil, nil, false
+				}
+				if b, ok := c.Call.Value.(*ssa.Builtin); !ok || b.Name() != "append" || len(c.Call.Args) != 2 {
+					return nil, nil, false
+				}
+				return c.Call.Args[0], c.Call.Args[1], true
+			}
+			// elems: the accumulator of the packing loop, nil extended by each Pack result at its end
+			isElems := func(v ssa.Value) bool {
+				phi, ok := v.(*ssa.Phi)
+				if !ok || len(phi.Edges) != 2 {
+					return false
+				}
+				grown, seeded := false, false
+				for _, e := range phi.Edges {
+					if c, ok := e.(*ssa.Const); ok && c.IsNil() {
+						seeded = true
+						continue
+					}
+					if base, tail, ok := appendOf(e); ok && base == ssa.Value(phi) {
+						if ex, ok := tail.(*ssa.Extract); ok && ex.Index == 0 {
+							if pc, ok := ex.Tuple.(*ssa.Call); ok && strings.HasSuffix(CalleeName(pc.Common()), "abi.Arguments).Pack") {
+								grown = true
+							}
+						}
+					}
+				}
+				return grown && seeded
+			}
+			hashed := 0
+			for _, cs := range P.CallSitesIn(fn) {
+				if !strings.HasSuffix(cs.Callee, "crypto.Keccak256") {
+					continue
+				}
+				hashed++
+				got := "not a single concatenation"
+				ok := false
+				if els := variadicElemValues(cs.Instr.Common().Args[0]); len(els) == 1 && els[0] != nil {
+					if head, elems, isApp := appendOf(els[0]); isApp {
+						if w0, w1, isApp2 := appendOf(head); isApp2 {
+							got = fmt.Sprintf("%s ++ %s ++ elements:%v", orDash(words[w0]), orDash(words[w1]), isElems(elems))
+							ok = words[w0] == "offset" && words[w1] == "length" && isElems(elems)
+						}
+					}
+					// the encoding handed back is the value that was hashed
+					for _, ret := range allReturns(fn) {
+						if len(ret.Results) == 3 && !DefinitelyFails(ret) {
+							r.check(unspill(ret.Results[0], ret) == els[0], "ABI-ROLES", "EncodeAndHashValidatorSet returns the bytes it hashed", P.Pos(ret.Pos()), "returned: "+tm.Of(ret.Results[0]).Brief())
+						}
+					}
+				}
+				r.check(ok, "ABI-ROLES", "EncodeAndHashValidatorSet hashes offset word ++ length word ++ packed elements in set order", where(cs.Instr), got)
+			}
+			r.check(hashed == 1, "ABI-ROLES", "EncodeAndHashValidatorSet hashes once", P.Pos(fn.Pos()), fmt.Sprintf("%d Keccak256 calls", hashed))
+		}
 		se := solEnc("verifyOracleData", "encode", 0)
 		r.check(se != nil && typesEq(se.Types, []string{"(address,uint256)[]"}) && se.Outer == "keccak256", "ABI-TYPES", "Solidity hashes abi.encode(Validator[]) with keccak256", "evm/contracts/bridge/BlobstreamO.sol", fmt.Sprintf("%+v", se))
 	}
@@ -741,4 +819,11 @@ func bigIntLoopSites(P *Prog, want func(*ssa.Function) bool) []bigIntSite {
 		}
 	}
 	return out
+}
+
+func orDash(s string) string {
+	if s == "" {
+		return "-"
+	}
+	return s
 }
